@@ -913,7 +913,7 @@ package compose
 //@   pure
 //@   ensures[def] result == (cmp == ComponentOfWorkflow)
 
-//@ modset validateState(g *graph) = map(g.toValidateMap), map(g.handlerOnEdges), map(g.handlerPreNode), map(g.fieldMappingRecords), region("F|compose.composableRunnable"), region("MD|map[string][]compose.handlerPair"), region("MV|map[string][]compose.handlerPair"), region("MC|map[string][]compose.handlerPair"), fresh()
+//@ modset validateState(g *graph) = map(g.toValidateMap), region("S|struct{endNode string; mappings []*compose.FieldMapping}"), map(g.handlerOnEdges), map(g.handlerPreNode), map(g.fieldMappingRecords), region("F|compose.composableRunnable"), region("MD|map[string][]compose.handlerPair"), region("MV|map[string][]compose.handlerPair"), region("MC|map[string][]compose.handlerPair"), fresh()
 
 //@ func (*graph).updateToValidateMap
 //@   props C07
@@ -926,7 +926,7 @@ package compose
 //@ func (*graph).addToValidateMap
 //@   props C07 C20
 //@   requires g != nil && g.toValidateMap != nil
-//@   modifies map(g.toValidateMap), fresh()
+//@   modifies map(g.toValidateMap), elems(g.toValidateMap[startNode]), fresh()
 
 //@ func (*graph).getNodeOutputType
 //@   trusted reads the declared or inferred output type of a node (nil for an untyped pass-through)
